@@ -131,6 +131,7 @@ type Exec struct {
 	adopted  int
 	trace    []string
 	tracing  bool
+	fine     bool // fine-grained mode: a second scheduling point AFTER every operation (see Fine)
 	// User carries harness state from the body to the checker.
 	User any
 }
@@ -545,6 +546,47 @@ func (e *Exec) point(t *thread, o *op) {
 	e.schedule(t, false)
 	if o.panicked {
 		panic(o.panicVal)
+	}
+	if e.fine && t.quiet == 0 && !o.quiesce {
+		e.post(t, o)
+	}
+}
+
+// post is the second scheduling point of an operation in fine-grained mode: the thread has
+// completed o and is about to run the plain code that follows it. It is an event on the objects o
+// touched, so that the fingerprint distinguishes "plain code after o ran before / after the next
+// operation on those objects" — which matters exactly when that plain code is NOT ordered by
+// go-zero's own synchronisation (a narrowed critical section, a pointer published before the
+// write it guards).
+func (e *Exec) post(t *thread, o *op) {
+	if e.aborting.Load() {
+		runtime.Goexit()
+	}
+	e.mu.Lock()
+	if e.aborting.Load() {
+		e.mu.Unlock()
+		runtime.Goexit()
+	}
+	objs := o.objs
+	if o.ch != nil {
+		objs = append(append([]*uint64{}, objs...), &o.ch.h)
+	}
+	e.pseq++
+	t.pseq = e.pseq
+	t.pending = &op{desc: "after:" + o.desc, enabled: alwaysTrue, exec: func() {}, objs: objs, chosen: -2}
+	e.schedule(t, false)
+}
+
+// Fine switches the fine-grained mode of the CURRENT execution on or off (call it first thing in a
+// scenario body). By default a thread can be preempted only immediately BEFORE each visible
+// operation, which is complete for data-race-free code; in fine-grained mode it can also be
+// preempted immediately AFTER each operation, i.e. between an unlock / atomic store / send and the
+// plain statements that follow. A change that moves a statement out of a critical section, or
+// publishes a pointer before initialising what it points to, becomes observable to the oracles
+// instead of being glued to the preceding operation. Costs about twice the points.
+func Fine(on bool) {
+	if e, t := managed(); t != nil {
+		e.fine = on
 	}
 }
 
